@@ -45,6 +45,10 @@ def stepCmd (a : A) : List String → Option (A × String)
   | ["c10.closeStart", o] => o.toNat?.bind fun o => act a (.closeStart o)
   | ["c10.closeBroker", o] => o.toNat?.bind fun o => act a (.closeBroker o)
   | ["c10.closed", o] => o.toNat?.bind fun o => act a (.closed o)
+  | ["c10.reopen", o] => o.toNat?.bind fun o =>
+    match reopen a o with
+    | some a' => some (a', s!"ok last={a'.last} keys={showKeys a'} objs={showObjs a'}")
+    | none => some (a, "rejected")
   | ["c10.cleanup", o] => o.toNat?.bind fun o => act a (.cleanup o)
   | _ => none
 
